@@ -7,6 +7,7 @@ J equals the exact reference Jacobian; (b) every gridding mode:
 T = [Re J^T, Im J^T]  <=>  Re<w, J v> = <J^T w, v> for all v, w;
 (c) jtvec(residual*weights) == gradient.
 """
+import os
 import shutil
 import tempfile
 import warnings
@@ -115,6 +116,14 @@ def case(c):
             warnings.simplefilter('ignore')
             sim = make(pname, gridding, tmp, 1e-11 if real else None,
                        c.get('rel', False), c.get('gopts'))
+            if c.get('via') == 'copy':     # the products on a copy / reload
+                sim = sim.copy(what='plain')
+            elif c.get('via'):
+                import emg3d
+                with tempfile.TemporaryDirectory(prefix='c08v_') as td:
+                    fn = os.path.join(td, 'sim.' + c['via'])
+                    sim.to_file(fn, what='plain', verb=0)
+                    sim = emg3d.Simulation.from_file(fn, verb=0)
             n = tuple(sim.model.grid.shape_cells)
             nb = nblocks(sim.model.case)
             nc = int(np.prod(n))
@@ -206,7 +215,7 @@ def case(c):
     return {'viol': viol, 'compared': compared,
             'transitions': nb*nc + 2*nd + 2, 'nontrivial': sc > 0,
             'outcome': (pname, gridding, bool(tmp), real, inconclusive,
-                        c.get('gopts')),
+                        c.get('gopts'), c.get('via')),
             'count': {'jvec_calls': nb*nc, 'jtvec_calls': 2*nd + 1,
                       'real_inconclusive': int(inconclusive)}}
 
@@ -260,6 +269,8 @@ def run(ctx):
            for p in (('iso', 'vti') if q else PROBLEMS)]
     cs += [{'problem': 'iso', 'gridding': g, 'file': True}
            for g in ('same', 'both')]
+    cs += [{'problem': 'vti', 'gridding': 'same', 'via': v}
+           for v in (('copy', 'npz') if q else ('copy', 'h5', 'npz', 'json'))]
     cs += [{'problem': 'vti', 'gridding': 'same', 'rel': True},
            {'problem': 'iso', 'gridding': 'source', 'rel': True}]
     cs += [{'problem': 'iso', 'gridding': g, 'gopts': 'distance'}
